@@ -78,8 +78,17 @@ func main() {
 	case "selftest":
 		os.Exit(cmdSelftest(os.Args[2:]))
 	case "build":
+		// warm-up / debugging aid: builds the simulator (and with "race" also the
+		// -race variant) against the current tree and prints the path; the
+		// scratch directory is left for the caller to use and remove
 		b := buildSim(false)
 		fmt.Println(b.bin)
+		if len(os.Args) > 2 && os.Args[2] == "race" {
+			br := buildSim(true)
+			fmt.Println(br.bin)
+			br.cleanup()
+			b.cleanup()
+		}
 		os.Exit(0)
 	default:
 		fmt.Fprintln(os.Stderr, "unknown command", os.Args[1])
